@@ -47,6 +47,23 @@ Pred(ds) ==
   LET k == LastIdx(ds, LAMBDA x : x # 0) IN
   StripZeros([i \in 1..Len(ds) |-> IF i < k THEN ds[i] ELSE IF i = k THEN ds[i] - 1 ELSE 9])
 
+\* ds div m and ds mod m for small m
+DivMod(ds, m) ==
+  LET r == FoldLeft(LAMBDA acc, x : LET t == acc.rem * 10 + x IN [q |-> Append(acc.q, t \div m), rem |-> t % m], [q |-> <<>>, rem |-> 0], ds)
+  IN [q |-> StripZeros(r.q), rem |-> r.rem]
+\* digits of ds in base b, most significant first (<<>> for zero)
+RECURSIVE ToBaseDigits(_, _)
+ToBaseDigits(ds, b) == IF ds = <<>> THEN <<>> ELSE LET dm == DivMod(ds, b) IN Append(ToBaseDigits(dm.q, b), dm.rem)
+BaseDigitChar(n) == IF n < 10 THEN 48 + n ELSE 87 + n
+\* strconv.FormatInt / FormatUint of a canonical decimal numeral (optional leading '-') in base b
+FormatInBase(txt, b) ==
+  LET neg == txt # E /\ txt[1] = DASH
+      body == IF neg THEN Tail(txt) ELSE txt
+      ds == StripZeros([i \in 1..Len(body) |-> body[i] - 48])
+      out == ToBaseDigits(ds, b)
+      t == IF out = <<>> THEN <<48>> ELSE [i \in 1..Len(out) |-> BaseDigitChar(out[i])]
+  IN IF neg /\ out # <<>> THEN <<DASH>> \o t ELSE t
+
 \* decimal text of a digit sequence
 DigitsText(ds) == IF ds = <<>> THEN <<48>> ELSE [i \in 1..Len(ds) |-> ds[i] + 48]
 
@@ -103,6 +120,9 @@ Lookup(table, t, txt) ==
 UMPrefix == <<117, 109, 58>>
 ParseUM(txt) == IF txt # E /\ txt[1] = 33 THEN Rej ELSE Okv(UMPrefix \o txt)
 
+\* the harness' bool-kinded Unmarshaler (type TB bool): "on" -> true, "off" -> false, anything else refused
+ParseTB(txt) == IF txt = <<111, 110>> THEN Okv(S_true) ELSE IF txt = <<111, 102, 102>> THEN Okv(S_false) ELSE Rej
+
 ---------------------------------------------------------------------------
 (* scalar conversion by element type.  ftab = float/duration table             *)
 ConvScalar(t, base, txt, ftab) ==
@@ -111,6 +131,7 @@ ConvScalar(t, base, txt, ftab) ==
     [] IsSignedInt(t) -> IF base >= 2 /\ base <= 36 THEN ParseSigned(txt, base, IntBits(t)) ELSE Unspec
     [] IsUnsignedInt(t) -> IF base >= 2 /\ base <= 36 THEN ParseUnsigned(txt, base, IntBits(t)) ELSE Unspec
     [] t = "um" -> ParseUM(txt)
+    [] t = "tb" -> ParseTB(txt)
     [] OTHER -> Lookup(ftab, t, txt)              \* float32, float64, duration
 
 \* key:value for maps (convert.go:273-301): split at the first ':'; a missing ':' gives the empty value text
